@@ -160,53 +160,94 @@ pub fn bfs(
     max_states: usize,
     make_check: &(dyn Fn() -> Box<dyn FnMut(&World, &mut Vec<StepFail>)> + Sync),
 ) -> BfsResult {
+    bfs_bounded(cfg, alphabet, root, max_depth, max_states, &|_| 0, usize::MAX, make_check)
+}
+
+/// As `bfs`, with a deviation bound: every event has a cost (0 = free move such as navigation,
+/// 1 = an action), a history may spend at most `cost_bound`; states are de-duplicated on
+/// (canonical key, cost spent) so that a costlier path never hides a cheaper one.
+#[allow(clippy::too_many_arguments)]
+pub fn bfs_bounded(
+    cfg: &WorldCfg,
+    alphabet: &[Ev],
+    root: &[Ev],
+    max_depth: usize,
+    max_states: usize,
+    cost: &(dyn Fn(&Ev) -> usize + Sync),
+    cost_bound: usize,
+    make_check: &(dyn Fn() -> Box<dyn FnMut(&World, &mut Vec<StepFail>)> + Sync),
+) -> BfsResult {
+    bfs_roots(cfg, alphabet, &[root.to_vec()], max_depth, max_states, cost, cost_bound, make_check)
+}
+
+/// The general form: several root histories (e.g. every state of a navigation fixpoint); the
+/// roots themselves are free, cost is counted on the events this search appends.
+#[allow(clippy::too_many_arguments)]
+pub fn bfs_roots(
+    cfg: &WorldCfg,
+    alphabet: &[Ev],
+    roots: &[Vec<Ev>],
+    max_depth: usize,
+    max_states: usize,
+    cost: &(dyn Fn(&Ev) -> usize + Sync),
+    cost_bound: usize,
+    make_check: &(dyn Fn() -> Box<dyn FnMut(&World, &mut Vec<StepFail>)> + Sync),
+) -> BfsResult {
     let mut res = BfsResult { states: 0, transitions: 0, max_depth: 0, fixpoint: false, fails: vec![], reached: vec![] };
     let mut seen: HashSet<u64> = HashSet::new();
-    // root
-    {
+    let bounded = cost_bound != usize::MAX;
+    let skey = |key: u64, spent: usize| if bounded { mc::hash64(&(key, spent)) | 1 } else { key };
+    // (history, cost spent)
+    let mut frontier: Vec<(Vec<Ev>, usize)> = vec![];
+    for root in roots {
         let mut chk = make_check();
         let (w, f) = replay(cfg, root, &mut *chk);
         for x in f {
-            res.fails.push((root.to_vec(), x));
+            res.fails.push((root.clone(), x));
         }
         if let Some(w) = w {
-            seen.insert(w.key());
-            res.states += 1;
-            res.reached.push(root.to_vec());
+            if seen.insert(skey(w.key(), 0)) {
+                res.states += 1;
+                res.reached.push(root.clone());
+                frontier.push((root.clone(), 0));
+            }
         }
     }
-    let mut frontier: Vec<Vec<Ev>> = res.reached.clone();
     for depth in 1..=max_depth {
         if frontier.is_empty() {
             res.fixpoint = true;
             break;
         }
-        let jobs: Vec<(usize, usize)> = (0..frontier.len()).flat_map(|n| (0..alphabet.len()).map(move |e| (n, e))).collect();
-        let out: Mutex<Vec<(u64, Vec<Ev>, Vec<StepFail>)>> = Mutex::new(vec![]);
+        let jobs: Vec<(usize, usize)> = (0..frontier.len())
+            .flat_map(|n| (0..alphabet.len()).map(move |e| (n, e)))
+            .filter(|(n, e)| frontier[*n].1 + cost(&alphabet[*e]) <= cost_bound)
+            .collect();
+        let out: Mutex<Vec<(u64, Vec<Ev>, usize, Vec<StepFail>)>> = Mutex::new(vec![]);
         mc::par_for(jobs.len(), mc::workers(), |j| {
             let (n, e) = jobs[j];
-            let mut h = frontier[n].clone();
+            let mut h = frontier[n].0.clone();
             h.push(alphabet[e]);
+            let spent = frontier[n].1 + cost(&alphabet[e]);
             let mut chk = make_check();
             let (w, f) = replay(cfg, &h, &mut *chk);
             let key = w.as_ref().map_or(0, World::key);
-            out.lock().unwrap().push((if w.is_some() { key } else { 0 }, h, f));
+            out.lock().unwrap().push((if w.is_some() { key } else { 0 }, h, spent, f));
         });
         let mut out = out.into_inner().unwrap();
         // deterministic order regardless of thread scheduling
         out.sort_by(|a, b| a.1.iter().map(Ev::name).collect::<Vec<_>>().cmp(&b.1.iter().map(Ev::name).collect::<Vec<_>>()));
         res.transitions += out.len() as u64;
         let mut next = vec![];
-        for (key, h, f) in out {
+        for (key, h, spent, f) in out {
             let fatal = f.iter().any(|x| x.phase != "invariant" && x.phase != "oracle");
             for x in f {
                 res.fails.push((h.clone(), x));
             }
-            if !fatal && key != 0 && seen.insert(key) {
+            if !fatal && key != 0 && seen.insert(skey(key, spent)) {
                 res.states += 1;
                 res.max_depth = depth;
                 res.reached.push(h.clone());
-                next.push(h);
+                next.push((h, spent));
             }
         }
         frontier = next;
